@@ -86,7 +86,7 @@ def rscripts(rng, n, faults=True):
     for _ in range(n):
         x = rng.random()
         if faults and x < 0.15:
-            sc.append((1, rng.choice([3, 4, 5, 6, 7, 1, 2]), 0))
+            sc.append((1, rng.choice([3, 4, 5, 6, 7, 1, 2]) + (100 if rng.random() < 0.35 else 0), 0))
         elif x < 0.3:
             sc.append((0, 0, 0))                      # spurious Ok(0)
         else:
@@ -228,7 +228,7 @@ class C08(AdapterProp):
 
     def gen(self, tier, rng):
         cases = []
-        firsts = [([65, 66], []), ([65, 66], [(0, 1, 0)]), ([65], [(0, 0, 0)]), ([], []), ([65, 66], [(1, 5, 0)]), ([65, 66], [(0, 1, 0), (1, 3, 0)]),
+        firsts = [([65, 66], []), ([65, 66], [(0, 1, 0)]), ([65], [(0, 0, 0)]), ([], []), ([65, 66], [(1, 5, 0)]), ([65, 66], [(0, 1, 0), (1, 3, 0)]), ([65, 66], [(1, 103, 0), (0, 1, 0)]), ([65, 66], [(0, 1, 0), (1, 106, 0)]),
                   ([65, 66], [(2, 0, 0)]), ([65, 66, 67], [(0, 2, 1)])]
         seconds = [([99, 100], []), ([], []), ([99, 100], [(1, 6, 0)]), ([99], [(0, 0, 0), (0, 1, 0)])]
         L = 3 if tier == "quick" else 4
@@ -367,6 +367,13 @@ class C13sync(AdapterProp):
                 cases.append(mk_chain(s1, rscripts(rng, rng.randrange(0, 4)), s2, rscripts(rng, rng.randrange(0, 4)), ws, ops, "random"))
             else:
                 cases.append(mk_take(rng.choice([0, 1, 3, 100, U64]), s2, rscripts(rng, rng.randrange(0, 4)), ws, ops, "random"))
+        from . import dictionary
+        for v in dictionary.exact():
+            if 256 <= v <= 70000:
+                for op in (("W", [7]), ("F",)):
+                    ops = [op] * (v + 2) + [("W", [1, 2]), ("F",)]
+                    cases.append(mk_chain([65], [], [97, 98], [], [], ops, "dictionary"))
+                    cases.append(mk_take(5, [97, 98], [], [], ops, "dictionary"))
         return cases
 
     def check_sync(self, case, trace, prof):
